@@ -416,6 +416,27 @@ def run(ctx, config='rel-all'):
                 else:
                     ctx.ok('O10', '%s reserves from the lower bound of the size hint only' % fn, show(amt)[:80])
         ctx.floor('O10', n10, 3, 'size-hint driven reservations in the collections')
+    # ---- O11 a reservation never shrinks: the raw buffer is only re-sized (reserve_internal) on a path where the spare capacity
+    # is smaller than what was asked for, cap() - used < additional; otherwise reserve_exact(n) with n below the spare capacity
+    # would cut the buffer down to len + n and a later insertion that fitted before would move it
+    if config != 'rel-default':
+        n11 = 0
+        for name in ('reserve', 'reserve_exact', 'try_reserve', 'try_reserve_exact'):
+            bs = [x for x in db.fn_bodies() if x['kind'] == 'assoc_fn' and x['meta'].get('name') == name and (x['meta'].get('impl_adt') or '').endswith('raw_vec::RawVec') and not x['meta'].get('impl_trait')]
+            if not bs:
+                ctx.anchor_missing('O11', 'RawVec::' + name)
+                continue
+            J, r = arena.run_fn(ctx, bs[0]['id'], config)
+            used, extra = ('param', 2), ('param', 3)
+            for e in r.events:
+                if e.kind == 'call' and (e.callee or '').endswith('::reserve_internal'):
+                    n11 += 1
+                    guarded = any(f[0] == 'lt' and len(f) == 3 and f[2] == extra and isinstance(f[1], tuple) and f[1][:2] in (('app', 'wsub'), ('app', 'sub')) and f[1][3] == used for f in e.state.facts)
+                    if guarded:
+                        ctx.ok('O11', 'RawVec::%s re-sizes the buffer only under cap() - used < additional' % name, 'must-fact at the reserve_internal call')
+                    else:
+                        ctx.violation('O11', 'RawVec::' + name, 'unguarded-resize', 'RawVec::%s reaches reserve_internal on a path where the spare capacity is not known to be insufficient: a reservation smaller than the spare capacity would shrink the buffer' % name, e.span)
+        ctx.floor('O11', n11, 4, 'calls of the re-sizing routine from the reserve family')
     # ---- R10 the headroom the slow path compares candidates against is limit - allocated_bytes: the counter must be exact
     # on every store (C08.O1), or candidates that fit are refused and the chunk sequence stops doubling
     from . import c08
